@@ -18,6 +18,6 @@ CONSTANTS
   NZero = 0
   MaxBal = 1
   UMax = 3
-INVARIANTS TypeOK CanClose LedgerShape Conservation HeldSigsValid TagSeparation IssuedMatchesLedger TokenOnlyAfterRevocation ClosedOnUnrevoked MerchantExposureBounded NoDoubleSpend
-PROPERTIES RefusedIsInert ReleaseOnlyOnAccept RefusedStartInert TokenIffOpens RestoreStutters ReplayRefused FaultRefused HonestAccepted
+INVARIANTS TypeOK CanClose LedgerShape Conservation HeldSigsValid TagSeparation IssuedMatchesLedger TokenOnlyAfterRevocation ClosedOnUnrevoked MerchantExposureBounded NoDoubleSpend DisputeWindow DisputePunishOld DisputeOutcomeConserves MerchantPayoffBound DisputeCustomerSafe
+PROPERTIES RefusedIsInert OutcomeOnlyByCustomer ReleaseOnlyOnAccept RefusedStartInert TokenIffOpens RestoreStutters ReplayRefused FaultRefused HonestAccepted
 CHECK_DEADLOCK FALSE
